@@ -149,17 +149,31 @@ def abstract_values(ctx, unit, ops, expr, env):
 
 
 def callers_of(ctx, target) -> list:
-    """Units of the same module that call the library function / method ``target``."""
+    """Units that call the library function / method ``target`` (same module; for a plain
+    function also other modules, under whatever name they import it)."""
     out = []
     name = target.qualname.rsplit(".", 1)[-1]
-    for v in target.module.units.values():
+    units = list(target.module.units.values())
+    if target.cls is None and target.parent is None:
+        for mod in ctx.pkg.modules.values():
+            if mod is not target.module:
+                units.extend(mod.units.values())
+    for v in units:
         if v is target or v.is_overload():
             continue
         for call in walk_own(v.node):
             if not isinstance(call, ast.Call):
                 continue
             f = call.func
-            if not ((isinstance(f, ast.Name) and f.id == name) or (isinstance(f, ast.Attribute) and f.attr == name)):
+            if v.module is not target.module:
+                if not isinstance(f, (ast.Name, ast.Attribute)):
+                    continue
+                try:
+                    if ctx.pkg.resolve_expr_global(v.module, f).qual != target.fq:
+                        continue
+                except Exception:  # noqa: BLE001
+                    continue
+            elif not ((isinstance(f, ast.Name) and f.id == name) or (isinstance(f, ast.Attribute) and f.attr == name)):
                 continue
             try:
                 fv = ctx.vals.expr(v, f, None)
